@@ -502,6 +502,8 @@ impl Nodes {
             let Some((blk, valid)) = built.get(&(br, n)).cloned() else { continue };
             // a block is verified when it makes its branch the best one; a side block is stored unverified
             let verified_now = blk.number() > self.n[0].node.tip().number();
+            // views taken before the block arrives (a reader may hold one for a while)
+            let old_views: Vec<std::sync::Arc<ckb_snapshot::Snapshot>> = self.n.iter().map(|d| std::sync::Arc::clone(&d.node.shared.snapshot())).collect();
             let mut answers = vec![];
             for d in self.n.iter() {
                 let r = d.node.process(&blk);
@@ -523,6 +525,71 @@ impl Nodes {
             }
             if !valid {
                 report.nontrivial.insert(fp(&(case, k)));
+            }
+            // Per block: a reader looks at the header through the live store (a side block is visible
+            // there only: no new view is published for it) and the fresh view, then a reader that still
+            // holds the view from BEFORE the block asks for one part, and the live store is asked for
+            // the same part at once (a capacity-1 cache forgets by the next question).  What the live
+            // store answers must not depend on the caches.
+            let mut imm: Vec<BTreeMap<String, String>> = vec![];
+            for (d, v) in self.n.iter().zip(old_views.iter()) {
+                let fresh = d.node.shared.snapshot();
+                let live = d.node.shared.store();
+                let mut m = BTreeMap::new();
+                for (name, b) in &seen_blocks {
+                    let h = b.hash();
+                    let _ = live.get_block_header(&h);
+                    let _ = fresh.get_block_header(&h);
+                    let _ = v.get_block_extension(&h);
+                    m.insert(format!("{name}/live.get_block_extension after a stale view asked"), opt(live.get_block_extension(&h).map(|x| x.as_slice().to_vec())));
+                    let _ = v.get_block_uncles(&h);
+                    m.insert(format!("{name}/live.get_block_uncles after a stale view asked"), opt(live.get_block_uncles(&h).map(|x| x.data().as_slice().to_vec())));
+                    let _ = v.get_block_proposal_txs_ids(&h);
+                    m.insert(format!("{name}/live.get_block_proposal_txs_ids after a stale view asked"), opt(live.get_block_proposal_txs_ids(&h).map(|x| x.as_slice().to_vec())));
+                    let _ = v.get_block_txs_hashes(&h);
+                    m.insert(format!("{name}/live.get_block_txs_hashes after a stale view asked"), live.get_block_txs_hashes(&h).iter().map(|t| hx(t.as_slice())).collect::<Vec<_>>().join(","));
+                    let _ = v.get_block_header(&h);
+                    m.insert(format!("{name}/live.get_block after a stale view asked"), opt(live.get_block(&h).map(|x| x.data().as_slice().to_vec())));
+                }
+                imm.push(m);
+            }
+            report.evaluations += imm[0].len() as u64 * 3;
+            for (i, tag) in [(1usize, "default caches"), (2, "capacity 1")] {
+                for (k, want) in &imm[0] {
+                    let g = imm[i].get(k).cloned().unwrap_or_default();
+                    if &g != want {
+                        let what = k.split('/').last().unwrap_or(k).split(' ').next().unwrap_or("").to_string();
+                        report.violation(format!("answer-differs/{what}"), format!("after {}: {k}: caches off -> {:.80}, {tag} -> {:.80}", trace.join(", "), want, g), label.clone());
+                    }
+                }
+            }
+            self.compare(&seen_blocks, &trace, &label, report, true, false)?;
+            // the stale views are asked about every block (their answers must agree across the nodes
+            // too), then the fresh views are asked again: a stale view must not leave anything behind
+            // in a shared cache
+            let stale: Vec<BTreeMap<String, String>> = old_views.iter().map(|v| {
+                let mut m = BTreeMap::new();
+                for (name, b) in &seen_blocks {
+                    let h = b.hash();
+                    m.insert(format!("{name}/stale.get_block_extension"), opt(v.get_block_extension(&h).map(|x| x.as_slice().to_vec())));
+                    m.insert(format!("{name}/stale.get_block_header"), opt(v.get_block_header(&h).map(|x| x.data().as_slice().to_vec())));
+                    m.insert(format!("{name}/stale.get_block"), opt(v.get_block(&h).map(|x| x.data().as_slice().to_vec())));
+                    m.insert(format!("{name}/stale.get_block_uncles"), opt(v.get_block_uncles(&h).map(|x| x.data().as_slice().to_vec())));
+                    m.insert(format!("{name}/stale.get_block_proposal_txs_ids"), opt(v.get_block_proposal_txs_ids(&h).map(|x| x.as_slice().to_vec())));
+                    m.insert(format!("{name}/stale.get_block_txs_hashes"), v.get_block_txs_hashes(&h).iter().map(|t| hx(t.as_slice())).collect::<Vec<_>>().join(","));
+                }
+                m
+            }).collect();
+            // A stale view may or may not see a newer block's parts through the shared cache (the
+            // statement does not promise snapshot isolation of the cache); what it must never do is
+            // hand out a PARTIAL block: get_block answers None or the complete block.
+            for (i, m) in stale.iter().enumerate() {
+                for (name, b) in &seen_blocks {
+                    let got = m.get(&format!("{name}/stale.get_block")).cloned().unwrap_or_default();
+                    if got != "None" && got != hx(b.data().as_slice()) {
+                        report.violation("stale-view-partial-block", format!("after {}: a view taken before block {name} arrived answers get_block with {} bytes that are not the block ({} bytes) on node N{i}", trace.join(", "), got.len() / 2, b.data().as_slice().len()), label.clone());
+                    }
+                }
             }
             self.compare(&seen_blocks, &trace, &label, report, true, false)?;
         }
@@ -631,7 +698,7 @@ pub fn meta(tier: Tier) -> Meta {
     Meta {
         id: "C14",
         level: "model_checking",
-        rule: "case = (placement of the witness-dependent tx W (good / bad witness, same tx hash) in a3 and b3, placement of the since-locked tx S in block 3 (premature) or 4 on each branch, parent/child pair in one or two blocks, conflicting Ta / Tb, submission position of each relevant tx incl. both witness variants) -> blocks a1..a4 | b1..b5 forged freshly, blocks after an invalid one not built; delivered with the submissions to three real nodes (chain + pool) differing only in caches: all store read caches and the tx verification cache at capacity 0 / default / 1; the default and capacity-1 nodes keep their caches across cases (rebooted every 25 cases). After EVERY event: identical submission verdicts, identical block verdicts and equal to the verdict by construction, identical pool entries (cycles, fee, size), identical answers of a query battery (block, header, ext with fees/cycles/verified, uncles, proposals, extension, tx hashes, number, main-chain flag, epoch, ancestor, hash-by-number, transaction with info, cell status with data through the snapshot's CellProvider) over every block - including rejected ones and blocks that have not arrived yet -, transaction and out-point of the history. maturity family (strict nodes need one epoch of cellbase maturity; the forge, with maturity 0, can build on an immature spend): c1..c6 | a7..a10 | b7..b11 with M (spending the cellbase of block 6, mature from block 10) in a10 or not, in b9 (immature) / b10 / nowhere, submitted never or after c6 / a9 / a10; same comparisons, and the B branch must be refused at b11 iff M sits in b9. non-trivial = a case with an invalid block.",
+        rule: "case = (placement of the witness-dependent tx W (good / bad witness, same tx hash) in a3 and b3, placement of the since-locked tx S in block 3 (premature) or 4 on each branch, parent/child pair in one or two blocks, conflicting Ta / Tb, submission position of each relevant tx incl. both witness variants) -> blocks a1..a4 | b1..b5 forged freshly, blocks after an invalid one not built; delivered with the submissions to three real nodes (chain + pool) differing only in caches: all store read caches and the tx verification cache at capacity 0 / default / 1; the default and capacity-1 nodes keep their caches across cases (rebooted every 25 cases). After EVERY event: identical submission verdicts, identical block verdicts and equal to the verdict by construction, identical pool entries (cycles, fee, size), after every block additionally a view taken BEFORE the block arrived is asked about every block and the fresh views are asked again; identical answers of a query battery (block, header, ext with fees/cycles/verified, uncles, proposals, extension, tx hashes, number, main-chain flag, epoch, ancestor, hash-by-number, transaction with info, cell status with data through the snapshot's CellProvider) over every block - including rejected ones and blocks that have not arrived yet -, transaction and out-point of the history. maturity family (strict nodes need one epoch of cellbase maturity; the forge, with maturity 0, can build on an immature spend): c1..c6 | a7..a10 | b7..b11 with M (spending the cellbase of block 6, mature from block 10) in a10 or not, in b9 (immature) / b10 / nowhere, submitted never or after c6 / a9 / a10; same comparisons, and the B branch must be refused at b11 iff M sits in b9. non-trivial = a case with an invalid block.",
         assumptions: &["raw ChainStore::get_cell_data / get_cell_data_hash on dead cells are counted, not judged (public queries reach cell data only through the liveness check)", "the hard-fork schedule is constant (all features active from genesis): VM version selection across a fork boundary with a warm cache is not exercised", "SYSTEM_CELL resolved-dep cache is process global and not varied"],
         bounds: json!({"positions": if tier.is_thorough() { json!(["never", 0, 2, 3, 4, 7]) } else { json!(["never", 0, 3]) }, "nodes": ["caches off", "default", "capacity 1"], "reboot_every": 25}),
     }
